@@ -14,13 +14,16 @@ EXTENDS OpaqueProps, Json
 CONSTANTS
     SetupPlan,  \* sequence of [op |-> "new", tape] | [op |-> "parts", seed, key, fake : setup ids, mode]
                 \*              | [op |-> "withkey", tape, key : setup id, mode]
-    RegPlan,    \* sequence of [pw1, pw2, cid, s, idu, ids, ksf]  (registration i -> file i)
+    RegPlan,    \* sequence of [pw1, pw2, cid, s, idu, ids, ksf]  (registration i -> file i); an idu / ids /
+                \* ksf entry may be the token "any": then every value of RegIdus / RegIdss / RegKsfs is explored
+    RegIdus, RegIdss, RegKsfs,
     CliPw,      \* CliIds -> <<pw at start, pw at finish>>
     SrvSetups, SrvRecs, SrvCids, SrvCtxs, SrvIdus, SrvIdss,   \* server-start choices (SrvRecs: file ids, 0 = none)
     CliCtxs, CliIdus, CliIdss, CliKsfs,                        \* client-finish choices
-    Tamper,     \* subset of {"eval","mn","masked","snonce","sepk","mac"} x {"valid","invalid"} as <<f, cls>>
+    MutPlan,    \* sequence of <<field, class>>: adversary-made values, manufactured at the end of the
+                \* prefix; a response may be delivered with one field replaced by such a value, a
+                \* "fin" value may be delivered as finalization
     Splice,     \* BOOLEAN: a response field may come from another server session's response
-    ForgeFin,   \* BOOLEAN: forged finalizations
     Reloads,    \* BOOLEAN: Reload actions enabled in the free phase
     MaxFree     \* bound on the number of free-phase steps (state constraint)
 
@@ -30,7 +33,8 @@ mcvars == <<vars, phase, nfree>>
 
 NS == Len(SetupPlan)
 NR == Len(RegPlan)
-PrefixLen == NS + 4 * NR
+NM == Len(MutPlan)
+PrefixLen == NS + 4 * NR + NM
 
 \* identity choice tokens: <<"tok","cpk">> = explicit spelling of the user's public key,
 \* <<"tok","spk">> = explicit spelling of the server's public key
@@ -51,15 +55,20 @@ RegStep(i, sub) ==
     CASE sub = 0 -> CRegStart(i, P.pw1, 100 + 2 * i)
       [] sub = 1 -> SRegStart(P.s, regs[i].blinded, P.cid)
       [] sub = 2 -> LET r == SRegStartRes(P.s, regs[i].blinded, P.cid) IN
+                    \E idu \in (IF P.idu = Tok("any") THEN RegIdus ELSE {P.idu}),
+                       ids \in (IF P.ids = Tok("any") THEN RegIdss ELSE {P.ids}),
+                       ksf \in (IF P.ksf = 99 THEN RegKsfs ELSE {P.ksf}) :
                     CRegFinish(i, P.pw2, r.eval, r.spk,
-                               ResolveId(P.idu, NoneV, r.spk), ResolveId(P.ids, NoneV, r.spk),
-                               P.ksf, FALSE, 101 + 2 * i)
+                               ResolveId(idu, NoneV, r.spk), ResolveId(ids, NoneV, r.spk),
+                               ksf, FALSE, 101 + 2 * i)
       [] sub = 3 -> SRegFinish(i, RecOfReg(i))
 
 Prefix ==
     /\ phase <= PrefixLen
     /\ IF phase <= NS THEN SetupStep(phase)
-       ELSE RegStep(((phase - NS - 1) \div 4) + 1, (phase - NS - 1) % 4)
+       ELSE IF phase <= NS + 4 * NR
+            THEN RegStep(((phase - NS - 1) \div 4) + 1, (phase - NS - 1) % 4)
+            ELSE Mut(MutPlan[phase - NS - 4 * NR][1], MutPlan[phase - NS - 4 * NR][2])
     /\ phase' = phase + 1
     /\ UNCHANGED nfree
 
@@ -70,8 +79,8 @@ NextSrv     == IF UsedSrv = SrvIds THEN 0 ELSE CHOOSE j \in SrvIds \ UsedSrv :
                                                    \A k \in SrvIds \ UsedSrv : j <= k
 RecChoice(u) == IF u = 0 THEN NoRec ELSE files[u].rec
 Responses   == {sv[j].resp : j \in {k \in SrvIds : SrvOk(k)}}
-TamperOne(m, f, cls) ==
-    LET g == Gbg(f, cls, 1) IN
+TamperOne(m, g) ==
+    LET f == g[2] IN
     CASE f = "eval"   -> [m EXCEPT !.eval = g]
       [] f = "mn"     -> [m EXCEPT !.mn = g]
       [] f = "masked" -> [m EXCEPT !.masked = g]
@@ -88,11 +97,11 @@ SpliceOne(m, m2, f) ==
 RespFields == {"eval", "mn", "masked", "snonce", "sepk", "mac"}
 Deliverable ==
     Responses
-    \cup {TamperOne(m, t[1], t[2]) : m \in Responses, t \in Tamper}
+    \cup {TamperOne(m, g) : m \in Responses, g \in {x \in garbage : x[2] \in RespFields}}
     \cup (IF Splice THEN {SpliceOne(m, m2, f) : m \in Responses, m2 \in Responses, f \in RespFields}
           ELSE {})
 Fins == {cl[c].fin : c \in {k \in CliIds : CliOk(k)}}
-        \cup (IF ForgeFin THEN {Gbg("fin", "valid", 2)} ELSE {})
+        \cup {x \in garbage : x[2] = "fin"}
 
 \* the user's registered public key / the server key, for explicit spellings of the defaults
 UserCpk == IF NR >= 1 /\ RegOk(1) THEN regs[1].cpk ELSE NoneV
@@ -114,6 +123,7 @@ FreeCLogFinish ==
        ctx \in CliCtxs, idu \in CliIdus, ids \in CliIdss, ksf \in CliKsfs :
          CLogFinish(c, CliPw[c][2], m, ctx, ResolveId(idu, UserCpk, SPk(1)),
                     ResolveId(ids, UserCpk, SPk(1)), ksf, FALSE)
+    \* (explicit spellings at the client: its registered public key, and the key of setup 1)
 
 FreeSLogFinish ==
     \E j \in {k \in SrvIds : sv[k].st = "started"}, fin \in Fins : SLogFinish(j, fin)
@@ -136,4 +146,5 @@ Bound == nfree <= MaxFree
 
 \* behaviour emission for the replay direction (spec -> code): one JSON line per behaviour
 EmitAt(cond) == (cond /\ TrackObs) => PrintT(<<"BEHAVIOUR", ToJson(hist)>>)
+EmitAtBound == EmitAt(nfree = MaxFree)
 =============================================================================
